@@ -1174,4 +1174,323 @@ theorem sorted_of_chain (hs : StrictWeak r) {xs : List α}
 
 end pure
 
+
+/-! ## conservation for the index-based routines (`TryHeap`, `quickselect`): whatever the comparator
+does, the array holds the same elements afterwards — also in the state a failure leaves behind -/
+
+def Conserves (P : β → List α) (xs : List α) : Res ε α β → Prop
+  | .ok v _ => (P v).Perm xs
+  | .fail _ b _ => b.Perm xs
+  | .panic => True
+
+theorem Conserves.perm {P : β → List α} {xs ys : List α} {r : Res ε α β}
+    (h : Conserves P xs r) (hp : xs.Perm ys) : Conserves P ys r := by
+  cases r with
+  | ok v n => exact Perm.trans h hp
+  | fail e b n => exact Perm.trans h hp
+  | panic => trivial
+
+theorem Conserves.bind {P : β → List α} {Q : γ → List α} {xs : List α} {r : Res ε α β}
+    {f : β → Nat → Res ε α γ} (h : Conserves P xs r)
+    (hf : ∀ v n, r = .ok v n → Conserves Q (P v) (f v n)) : Conserves Q xs (r.bind f) := by
+  cases r with
+  | ok v n => exact (hf v n rfl).perm h
+  | fail e b n => exact h
+  | panic => trivial
+
+theorem Conserves.map {P : β → List α} {Q : γ → List α} {xs : List α} {r : Res ε α β} (g : β → γ)
+    (hg : ∀ v, Q (g v) = P v) (h : Conserves P xs r) : Conserves Q xs (r.map g) := by
+  cases r with
+  | ok v n => simpa [Res.map, Conserves, hg] using h
+  | fail e b n => exact h
+  | panic => trivial
+
+open Classical in
+theorem set_set_perm {l : List α} {i j : Nat} {p x : α} (hj : l[j]? = some p) (hij : i ≠ j)
+    (hi : i < l.length) : ((l.set i p).set j x).Perm (l.set i x) := by
+  have hjl : j < l.length := by
+    rcases Nat.lt_or_ge j l.length with h | h
+    · exact h
+    · rw [List.getElem?_eq_none_iff.mpr h] at hj; cases hj
+  have hjv : l[j] = p := by
+    rw [List.getElem?_eq_getElem hjl] at hj; exact Option.some.inj hj
+  rw [List.perm_iff_count]
+  intro c
+  rw [List.count_set (by simpa using hjl), List.count_set hi, List.count_set hi]
+  have h1 : (l.set i p)[j]'(by simpa using hjl) = p := by
+    rw [List.getElem_set_of_ne hij]; exact hjv
+  rw [h1]
+  have hb : (if (l[i] == c) = true then 1 else 0) ≤ count c l := by
+    split
+    · rename_i h
+      have : l[i] = c := by simpa using h
+      exact List.count_pos_iff.mpr (this ▸ List.getElem_mem hi)
+    · omega
+  split <;> split <;> split <;> omega
+
+theorem lt_length_of_getElem? {l : List α} {i : Nat} {a : α} (h : l[i]? = some a) : i < l.length := by
+  rcases Nat.lt_or_ge i l.length with h' | h'
+  · exact h'
+  · rw [List.getElem?_eq_none_iff.mpr h'] at h; cases h
+
+theorem set_self_of_getElem? {l : List α} {i : Nat} {a : α} (h : l[i]? = some a) : l.set i a = l := by
+  have hi := lt_length_of_getElem? h
+  rw [List.getElem?_eq_getElem hi] at h
+  have : l[i] = a := Option.some.inj h
+  subst this
+  exact List.set_getElem_self hi
+
+namespace Select
+
+theorem swap_perm {l l' : List α} {i j : Nat} (h : swap l i j = some l') : l'.Perm l := by
+  unfold swap at h
+  cases hi : l[i]? with
+  | none => simp [hi] at h
+  | some a =>
+    cases hj : l[j]? with
+    | none => simp [hi, hj] at h
+    | some b =>
+      simp only [hi, hj, Option.some.injEq] at h
+      subst h
+      by_cases hij : i = j
+      · subst hij
+        rw [hi] at hj; cases hj
+        simp [set_self_of_getElem? hi]
+      · have := set_set_perm (x := a) hj hij (lt_length_of_getElem? hi)
+        rw [set_self_of_getElem? hi] at this
+        exact this
+
+theorem partLoop_conserves (cmp : Cmp3 ε α) (pivot : α) (k : Nat) (items : List α) (j ret n : Nat) :
+    Conserves (fun p : List α × Nat => p.1) items (partLoop cmp pivot k items j ret n) := by
+  induction k generalizing items j ret n with
+  | zero => exact Perm.refl _
+  | succ k ih =>
+    simp only [partLoop]
+    cases items[j]? with
+    | none => trivial
+    | some x =>
+      simp only
+      cases cmp n x pivot with
+      | error e => exact Perm.refl _
+      | ok c =>
+        simp only
+        split
+        · cases hs : swap items j ret with
+          | none => trivial
+          | some items' => exact (ih items' _ _ _).perm (swap_perm hs)
+        · exact ih items _ _ _
+
+theorem choosePivot_conserves (cmp : Cmp3 ε α) (items : List α) (left right n : Nat) :
+    Conserves (fun _ : Nat => items) items (choosePivot cmp items left right n) := by
+  unfold choosePivot
+  simp only
+  split
+  · split
+    · exact Perm.refl _
+    · split
+      · exact Perm.refl _
+      · split
+        · exact Perm.refl _
+        · split
+          · exact Perm.refl _
+          · split <;> exact Perm.refl _
+  · trivial
+
+theorem partition_conserves (cmp : Cmp3 ε α) (items : List α) (left right n : Nat) :
+    Conserves (fun p : List α × Nat => p.1) items (partition cmp items left right n) := by
+  unfold partition
+  split
+  · exact Perm.refl _
+  · refine (choosePivot_conserves cmp items left right n).bind (fun piv n1 _ => ?_)
+    cases hs : swap items piv right with
+    | none => trivial
+    | some items1 =>
+      simp only
+      cases items1[right]? with
+      | none => trivial
+      | some pivot =>
+        simp only
+        refine ((partLoop_conserves cmp pivot _ items1 left left n1).perm (swap_perm hs)).bind
+          (fun st n2 _ => ?_)
+        cases hs2 : swap st.1 st.2 right with
+        | none => trivial
+        | some items2 => exact swap_perm hs2
+
+theorem selectLoop_conserves (cmp : Cmp3 ε α) (target fuel : Nat) (arr : List α) (left right n : Nat) :
+    Conserves (fun p : α × List α => p.2) arr (selectLoop cmp target fuel arr left right n) := by
+  induction fuel generalizing arr left right n with
+  | zero => trivial
+  | succ fuel ih =>
+    simp only [selectLoop]
+    refine (partition_conserves cmp arr left right n).bind (fun st n1 _ => ?_)
+    obtain ⟨arr', p⟩ := st
+    simp only
+    split
+    · cases arr'[p]? with
+      | none => trivial
+      | some x => exact Perm.refl _
+    · split
+      · split
+        · trivial
+        · exact ih _ _ _ _
+      · exact ih _ _ _ _
+
+theorem selectLoop_mem (cmp : Cmp3 ε α) (target fuel : Nat) (arr : List α) (left right n n' : Nat)
+    (x : α) (arr' : List α) (h : selectLoop cmp target fuel arr left right n = .ok (x, arr') n') :
+    x ∈ arr' := by
+  induction fuel generalizing arr left right n with
+  | zero => simp [selectLoop] at h
+  | succ fuel ih =>
+    simp only [selectLoop] at h
+    obtain ⟨st, n1, _, h2⟩ := Res.bind_eq_ok h
+    obtain ⟨a1, p⟩ := st
+    simp only at h2
+    split at h2
+    · cases hx : a1[p]? with
+      | none => simp [hx] at h2
+      | some y =>
+        simp only [hx, Res.ok.injEq, Prod.mk.injEq] at h2
+        obtain ⟨⟨rfl, rfl⟩, _⟩ := h2
+        exact List.mem_of_getElem? hx
+    · split at h2
+      · split at h2
+        · cases h2
+        · exact ih _ _ _ _ h2
+      · exact ih _ _ _ _ h2
+
+end Select
+
+namespace Heap
+
+theorem siftUp_conserves (le : Cmp ε α) (start fuel : Nat) (data : List α) (elt : α) (pos n : Nat)
+    (hpos : pos < data.length) :
+    Conserves (fun p : List α × Nat => p.1) (data.set pos elt) (siftUp le start fuel data elt pos n) := by
+  induction fuel generalizing data pos n with
+  | zero => trivial
+  | succ fuel ih =>
+    simp only [siftUp]
+    split
+    · rename_i hgt
+      cases hp : data[(pos - 1) / 2]? with
+      | none => trivial
+      | some p =>
+        simp only
+        cases le n elt p with
+        | error e => exact Perm.refl _
+        | ok c =>
+          cases c with
+          | true => exact Perm.refl _
+          | false =>
+            have hne : pos ≠ (pos - 1) / 2 := by omega
+            have hpl := lt_length_of_getElem? hp
+            refine (ih (data.set pos p) ((pos - 1) / 2) (n + 1) (by simpa using hpl)).perm ?_
+            exact set_set_perm hp hne hpos
+    · exact Perm.refl _
+
+def sdlPost (elt : α) (data : List α) (hole : Nat) : Res ε α (List α × Nat × Nat) → Prop
+  | .ok st _ => (st.1.set st.2.1 elt).Perm (data.set hole elt) ∧ st.2.1 < st.1.length ∧ st.2.1 < st.2.2
+  | .fail _ b _ => b.Perm (data.set hole elt)
+  | .panic => True
+
+theorem sdlPost_perm {elt : α} {data data' : List α} {hole hole' : Nat}
+    {r : Res ε α (List α × Nat × Nat)} (h : sdlPost elt data' hole' r)
+    (hp : (data'.set hole' elt).Perm (data.set hole elt)) : sdlPost elt data hole r := by
+  cases r with
+  | ok st m => exact ⟨h.1.trans hp, h.2⟩
+  | fail e b m => exact Perm.trans h hp
+  | panic => trivial
+
+theorem siftDownLoop_conserves (le : Cmp ε α) (elt : α) (fuel : Nat) (data : List α)
+    (hole child n : Nat) (hh : hole < data.length) (hc : hole < child) :
+    sdlPost elt data hole (siftDownLoop le elt fuel data hole child n) := by
+  induction fuel generalizing data hole child n with
+  | zero => trivial
+  | succ fuel ih =>
+    simp only [siftDownLoop]
+    split
+    · cases hl : data[child]? with
+      | none => trivial
+      | some l =>
+        cases hr : data[child + 1]? with
+        | none => trivial
+        | some r =>
+          simp only
+          cases le n l r with
+          | error e => exact Perm.refl _
+          | ok c =>
+            simp only
+            cases hv : data[if c = true then child + 1 else child]? with
+            | none => trivial
+            | some v =>
+              simp only
+              have hchl := lt_length_of_getElem? hv
+              have hne : hole ≠ (if c = true then child + 1 else child) := by split <;> omega
+              have := ih (data.set hole v) (if c = true then child + 1 else child)
+                (2 * (if c = true then child + 1 else child) + 1) (n + 1) (by simpa using hchl) (by omega)
+              exact sdlPost_perm this (set_set_perm (x := elt) hv hne hh)
+    · exact ⟨Perm.refl _, hh, hc⟩
+
+theorem siftDownToBottom_conserves (le : Cmp ε α) (data : List α) (pos n : Nat) :
+    Conserves id data (siftDownToBottom le data pos n) := by
+  unfold siftDownToBottom
+  cases he : data[pos]? with
+  | none => trivial
+  | some elt =>
+    simp only
+    have hpos := lt_length_of_getElem? he
+    have hl := siftDownLoop_conserves le elt (data.length + 1) data pos (2 * pos + 1) n hpos (by omega)
+    generalize siftDownLoop le elt (data.length + 1) data pos (2 * pos + 1) n = res at hl
+    cases res with
+    | panic => trivial
+    | fail e b m =>
+      have : b.Perm (data.set pos elt) := hl
+      rw [set_self_of_getElem? he] at this
+      exact this
+    | ok st n1 =>
+      obtain ⟨d, hole, child⟩ := st
+      obtain ⟨q1, q2, q3⟩ := hl
+      simp only at q1 q2 q3
+      rw [set_self_of_getElem? he] at q1
+      simp only [Res.bind]
+      split
+      · trivial
+      · refine Conserves.map (P := fun p : List α × Nat => p.1) _ (fun _ => rfl) ?_
+        by_cases hcl : child = d.length - 1
+        · cases hv : d[child]? with
+          | none =>
+            simp only [hcl, ite_true] at hv ⊢
+            exact (siftUp_conserves le pos _ d elt hole n1 q2).perm q1
+          | some v =>
+            have hchl := lt_length_of_getElem? hv
+            simp only [hcl, ite_true] at hv ⊢
+            refine (siftUp_conserves le pos _ (d.set hole v) elt _ n1 (by simp; omega)).perm ?_
+            exact (set_set_perm hv (by omega) q2).trans q1
+        · simp only [hcl, ite_false]
+          exact (siftUp_conserves le pos _ d elt hole n1 q2).perm q1
+
+theorem push_conserves (le : Cmp ε α) (data : List α) (item : α) (n : Nat) :
+    Conserves id (data ++ [item]) (push le data item n) := by
+  unfold push
+  refine Conserves.map (P := fun p : List α × Nat => p.1) _ (fun _ => rfl) ?_
+  have := siftUp_conserves le 0 (data.length + 1) (data ++ [item]) item data.length n (by simp)
+  have hs : (data ++ [item]).set data.length item = data ++ [item] := by
+    apply set_self_of_getElem?; simp
+  rw [hs] at this
+  exact this
+
+end Heap
+
+/-- what `quickselect` owes its caller whatever the comparator does -/
+def Select.Post (arr : List α) : Res ε α (α × List α) → Prop
+  | .ok v _ => v.2.Perm arr ∧ v.1 ∈ arr
+  | .fail _ buf _ => buf.Perm arr
+  | .panic => True
+
+/-- what `pop` owes its caller whatever the comparator does -/
+def Heap.PopPost (data : List α) : Res ε α (Option α × List α) → Prop
+  | .ok (some x, rest) _ => (x :: rest).Perm data
+  | .ok (none, rest) _ => data = [] ∧ rest = []
+  | .fail _ buf _ => ∃ root, data.head? = some root ∧ (root :: buf).Perm data
+  | .panic => True
+
 end XrayModel.Sort
